@@ -20,10 +20,10 @@ import (
 
 // Identity is a key with its certificate chain and the cert-chain+cbor bytes a fetcher returns.
 type Identity struct {
-	Key    *ecdsa.PrivateKey
-	Certs  []*x509.Certificate
-	Chain  certurl.CertChain
-	CBOR   []byte
+	Key     *ecdsa.PrivateKey
+	Certs   []*x509.Certificate
+	Chain   certurl.CertChain
+	CBOR    []byte
 	CertURL string
 }
 
